@@ -58,7 +58,7 @@ type xResult struct {
 func buildXdrv(build, repo string) (string, error) {
 	ov := map[string]map[string]string{"Replace": {
 		filepath.Join(repo, "internal", "zz_verif_export.go"): filepath.Join(mc.VerifDir(), "engine", "xenum", "export", "zz_verif_export.go"),
-		filepath.Join(repo, "zzverif", "xdrv", "main.go"):    filepath.Join(mc.VerifDir(), "engine", "xenum", "xdrv", "main.go"),
+		filepath.Join(repo, "zzverif", "xdrv", "main.go"):     filepath.Join(mc.VerifDir(), "engine", "xenum", "xdrv", "main.go"),
 	}}
 	b, _ := json.Marshal(ov)
 	ovf := filepath.Join(build, "overlay-x.json")
